@@ -37,6 +37,9 @@ def mk_cond(tag, kind):
 def define(c, classes):
     ns = {}
     for m, spec in c.get("methods", {}).items():
+        if spec.get("rebind"):  # `m = Base.m` in the class body: the inherited member, bound again under its own name
+            ns[m] = classes[spec["rebind"]].__dict__[m]
+            continue
         isprop = bool(spec.get("prop"))
         if isprop:
             def f(self, _m=m, _n=c["name"]):
@@ -119,7 +122,9 @@ def ref_member(prog, cname, m, cache):
     own = c.get("methods", {}).get(m)
     inherited = [ref_member(prog, b, m, cache) for b in c.get("bases", [])]
     inherited = [r for r in inherited if r is not None]
-    if own is None:
+    if own is not None and own.get("rebind"):
+        res = ref_member(prog, own["rebind"], m, cache)  # the base's member itself: its contracts, nothing added
+    elif own is None:
         res = inherited[0] if inherited else None  # not redefined: whatever lookup finds (first base providing it)
     else:
         own_pre = ["%s.%s.pre%d" % (cname, m, i) for i in range(own.get("pre", 0))]
@@ -160,9 +165,9 @@ def run(prog):
             classes[c["name"]] = define(c, classes)
             if expect_error:
                 problems.append({"what": "adding preconditions under an ancestor that declares none was accepted", "class": c["name"]})
-        except TypeError as e:
-            if not expect_error:
-                problems.append({"what": "class creation rejected: %s" % str(e)[:120], "class": c["name"]})
+        except (TypeError, ValueError) as e:
+            if not (expect_error and isinstance(e, TypeError)):
+                problems.append({"what": "class creation rejected with %s: %s" % (type(e).__name__, str(e)[:120]), "class": c["name"]})
             continue
         for n, obs in before.items():
             now = observe(classes[n], methods)
@@ -202,6 +207,11 @@ def scenarios():
     yield "weaken under unconstrained ancestor", {"classes": [{"name": "A", "methods": {"m": M()}}, {"name": "B", "bases": ["A"], "methods": {"m": M(pre=1)}}]}
     yield "gap in the chain", {"classes": [{"name": "A", "methods": {"m": M(pre=1, post=1)}}, {"name": "B", "bases": ["A"]}, {"name": "C", "bases": ["B"], "methods": {"m": M(pre=1, post=1)}}, {"name": "S", "bases": ["A"], "methods": {"m": M(pre=2)}}]}
     yield "constructor contracts are not inherited", {"classes": [{"name": "A", "methods": {"__init__": M(pre=1)}}, {"name": "B", "bases": ["A"], "methods": {"__init__": M(pre=1)}}]}
+    yield "inherited method bound again in the subclass (m = A.m)", {"classes": [{"name": "A", "methods": {"m": M(pre=1, post=1)}}, {"name": "B", "bases": ["A"], "methods": {"m": dict(rebind="A")}},
+                                                                                 {"name": "C", "bases": ["B"], "methods": {"m": M(post=1)}}]}
+    yield "inherited method picked explicitly among two bases (m = A.m)", {"classes": [{"name": "A", "methods": {"m": M(pre=1, post=1, snaps=1)}}, {"name": "K", "methods": {"m": M(pre=1, post=1)}},
+                                                                                   {"name": "B", "bases": ["A", "K"], "methods": {"m": dict(rebind="A")}}]}
+    yield "inherited property bound again in the subclass (p = A.p)", {"classes": [{"name": "A", "methods": {"p": dict(post=1, prop=True)}}, {"name": "B", "bases": ["A"], "methods": {"p": dict(rebind="A")}}]}
     P = lambda **kw: dict(kw, prop=True)
     yield "property: two bases with postconditions, overridden", {"classes": [{"name": "A", "methods": {"p": P(post=1)}}, {"name": "B", "methods": {"p": P(post=1, snaps=1)}}, {"name": "C", "bases": ["A", "B"], "methods": {"p": P(post=1)}},
                                                                               {"name": "D", "bases": ["B", "A"], "methods": {"p": P()}}]}
